@@ -10,7 +10,17 @@ Reads lib/gnu_gama/local/network.h and network.cpp of the tree under test and ex
     vyrovnani_ whether the flag is set before the solver is consulted;
   * for every public member of LocalNetwork with a body: which compute function it calls
     unconditionally before anything else is read ("ensures"), which cached artefacts it reads
-    (by member name: see ARTEFACTS), which `update(L)` it issues.
+    (by member name: see ARTEFACTS), which `update(L)` it issues;
+  * (round 9) the hand-over site of the regularisation list in project_equations,
+    `least_squares->min_x(min_n_, min_x_)`: how often it occurs, whether it is a statement at brace
+    depth 0 (runs on every pass that reaches the end of the function), its arguments, whether it stands
+    after the last write of min_x_/min_n_ (the list just built) and after the solver's reset(...), before
+    `tst_rov_opr_ = true`, and whether every earlier `return` is the recursive restart;
+  * (round 9) set_algorithm: is the solver object replaced by a brand-new one on every path
+    (`least_squares = <local>` at depth 0, every assignment to <local> a `new T` without arguments, no
+    `return`), is the old object read, is the new one told a list, which update(L) is issued;
+  * (round 9) the capacity of the envelope solver's move-to-front cache, `MoveToFront<N,…>` in
+    lib/gnu_gama/adj/adj_envelope.h (`mtfCapacity`; Props/C04.lean proves `cacheSize = mtfCapacity` by rfl).
 The Lean model (Model/NetState.lean) is generic over this table; the theorems in
 Props/C04Full.lean about the table (`net_table_*`) are `decide`d on the generated data, so a
 change in the source that breaks the cascade makes the proof fail.
@@ -239,11 +249,87 @@ def analyse_member(name, args, body, info):
     return lvl, sorted(reads), sorted(uncovered), (min(upd) if upd else None)
 
 
+WRITE_LIST = r"(?:delete\s*\[\]\s*min_x_\b|\bmin_x_\s*(?:\[[^\]]*\])?\s*=[^=]|\bmin_n_\s*(?:=[^=]|\+=|-=|\+\+|--)|(?:\+\+|--)\s*min_n_\b)"
+
+
+def extract_handover(fns):
+    """the hand-over site `least_squares->min_x(min_n_, min_x_)` in project_equations()"""
+    body = next(b for a, b in fns["project_equations"] if a == "")
+    calls = list(re.finditer(r"\bleast_squares\s*->\s*min_x\s*\(([^()]*)\)", body))
+    other = [m for m in re.finditer(r"(\w+)\s*(?:->|\.)\s*min_x\s*\(", body) if m.group(1) != "least_squares"]
+    if other:
+        raise TieBrokenLocal("project_equations: min_x(...) called through '%s' (shape not understood)" % other[0].group(1))
+    d = {"count": len(calls), "depth0": False, "args": [], "after_build": False, "after_reset": False,
+         "before_flag": False, "returns_restart": True}
+    if len(calls) != 1:
+        return d
+    c = calls[0]
+    d["args"] = [a.strip() for a in c.group(1).split(",")] if c.group(1).strip() else []
+    stmts = depth0_statements(body)
+    d["depth0"] = any(re.fullmatch(r"least_squares\s*->\s*min_x\s*\([^()]*\)\s*;", s_) for s_ in stmts)
+    writes = [m.start() for m in re.finditer(WRITE_LIST, body)]
+    d["after_build"] = bool(writes) and all(w < c.start() for w in writes)
+    resets = [m.start() for m in re.finditer(r"->\s*reset\s*\(", body)]
+    d["after_reset"] = bool(resets) and all(r_ < c.start() for r_ in resets)
+    flag = re.search(FLAGS[2] + r"\s*=\s*true\s*;", body)
+    d["before_flag"] = bool(flag) and c.start() < flag.start()
+    # every `return` before the call must be the restart `update(Points); project_equations(); return;`
+    # (the early-return guard `if (tst_rov_opr_) return;` is the Compute row's `guard`)
+    pre = body[:c.start()]
+    pre = re.sub(r"if\s*\(\s*" + FLAGS[2] + r"\s*\)\s*return\s*;", "", pre)
+    for m in re.finditer(r"\breturn\b", pre):
+        ctx_ = pre[max(0, m.start() - 80):m.start()]
+        if not re.search(r"\bproject_equations\s*\(\s*\)\s*;\s*$", ctx_):
+            d["returns_restart"] = False
+    return d
+
+
+def extract_set_algorithm(fns, levels, raw_fns):
+    if "set_algorithm" not in fns or "set_algorithm" not in raw_fns:
+        raise TieBrokenLocal("LocalNetwork::set_algorithm not found")
+    body = fns["set_algorithm"][0][1]
+    raw = raw_fns["set_algorithm"][0][1]          # string literals kept
+    stmts = depth0_statements(body)
+    d = {"fresh_object": False, "list_calls": len(re.findall(r"(?:->|\.)\s*min_x\s*\(", body)),
+         "reads_old": bool(re.search(r"\bleast_squares\s*->|\*\s*least_squares\b", body)),
+         "update": None, "update_depth0": False}
+    asg = [re.fullmatch(r"least_squares\s*=\s*(\w+)\s*;", s_) for s_ in stmts]
+    asg = [m for m in asg if m]
+    all_asg = re.findall(r"\bleast_squares\s*=[^=]", body)
+    if len(asg) == 1 and len(all_asg) == 1 and not re.search(r"\breturn\b", body):
+        loc = asg[0].group(1)
+        vals = re.findall(r"\b" + re.escape(loc) + r"\s*=\s*([^;]*);", body)
+        d["fresh_object"] = bool(vals) and all(re.fullmatch(r"new\s+[\w:<>, ]+?(\s*\(\s*\))?", v.strip()) for v in vals)
+    # which class is created for which name: `typedef GNU_gama::AdjGSO<…> OLS_gso;` … `if (alg == "gso") adjb = new OLS_gso;`
+    # and what the final `else` creates (an unknown name)
+    tdef = dict((b_, a_) for a_, b_ in re.findall(r"typedef\s+(?:\w+::)*(\w+)\s*<[^;]*>\s*(\w+)\s*;", raw))
+    d["classes"] = [(n_, tdef.get(c_, c_)) for n_, c_ in
+                    re.findall(r'\(\s*alg\s*==\s*"(\w*)"\s*\)\s*\w+\s*=\s*new\s+(\w+)\s*;', raw)]
+    m = re.search(r'else\s*\{\s*alg\s*=\s*"(\w*)"\s*;\s*\w+\s*=\s*new\s+(\w+)\s*;\s*\}', raw)
+    d["default"] = (m.group(1), tdef.get(m.group(2), m.group(2))) if m else ("", "")
+    d["stores_name"] = bool(re.search(r"\balgorithm_\s*=\s*alg\s*;", raw))
+    upd = [x for x in re.findall(r"\bupdate\s*\(\s*(\w+)\s*\)", body) if x in levels]
+    if upd:
+        d["update"] = min(levels.index(x) for x in upd)
+        d["update_depth0"] = all(any(re.fullmatch(r"update\s*\(\s*" + x + r"\s*\)\s*;", s_) for s_ in stmts) for x in upd)
+    return d
+
+
+def extract_mtf(repo):
+    h = strip((Path(repo) / "lib/gnu_gama/adj/adj_envelope.h").read_text())
+    ms = re.findall(r"MoveToFront\s*<\s*(\d+)\s*,", h)
+    if len(ms) != 1:
+        raise TieBrokenLocal("adj_envelope.h: expected exactly one MoveToFront<N,...> member, found %d" % len(ms))
+    return int(ms[0])
+
+
 def extract(repo):
     HANDLERS.clear()
     repo = Path(repo)
     h = strip((repo / "lib/gnu_gama/local/network.h").read_text())
-    cpp = strip((repo / "lib/gnu_gama/local/network.cpp").read_text())
+    cpp_text = (repo / "lib/gnu_gama/local/network.cpp").read_text()
+    cpp = strip(cpp_text)
+    raw_cpp = re.sub(r"//[^\n]*", "", re.sub(r"/\*.*?\*/", " ", cpp_text, flags=re.S))
     m = re.search(r"enum\s+Update\s*\{([^}]*)\}", h)
     if not m:
         raise TieBrokenLocal("enum Update not found")
@@ -332,8 +418,13 @@ def extract(repo):
                 continue
             e, reads, unc, upd = analyse_member(n, args, b, info)
             members.append((nm, e, reads, unc, upd))
+    saved = {k: list(v) for k, v in HANDLERS.items()}
+    raw_fns = cpp_functions(raw_cpp)
+    HANDLERS.clear()
+    HANDLERS.update(saved)
     return {"levels": levels, "cascade": cascade, "interrupted": interrupted, "default_first": default_first,
-            "compute": comp, "members": members}
+            "compute": comp, "members": members, "handover": extract_handover(fns),
+            "set_algorithm": extract_set_algorithm(fns, levels, raw_fns), "mtf": extract_mtf(repo)}
 
 
 ARTEFACTS_READ_BY_COMPUTE = {}
@@ -345,7 +436,7 @@ def lean_opt(x):
 
 def render(d):
     L = []
-    L.append("/-  GENERATED by tools/gen/c04_cascade.py from lib/gnu_gama/local/network.h, network.cpp — do not edit.")
+    L.append("/-  GENERATED by tools/gen/c04_cascade.py from lib/gnu_gama/local/network.h, network.cpp, adj/adj_envelope.h — do not edit.")
     L.append("    The update cascade of LocalNetwork and the table `public member ↦ (ensured level, artefact")
     L.append("    levels read, update level issued)`.  Levels: 0 Points, 1 Observations, 2 Residuals, 3 Adjustment;")
     L.append("    flags: 0 tst_redbod_, 1 tst_redmer_, 2 tst_rov_opr_, 3 tst_vyrovnani_.  Core Lean only. -/")
@@ -398,6 +489,51 @@ def render(d):
     for n, e, reads, unc, upd in d["members"]:
         rows.append(f'  ⟨"{n}", {lean_opt(e)}, [{", ".join(map(str, reads))}], [{", ".join(map(str, unc))}], {lean_opt(upd)}⟩')
     L.append(",\n".join(rows) + "]")
+    L.append("")
+    b = lambda x: "true" if x else "false"
+    h = d["handover"]
+    L.append("/-- the hand-over of the regularisation list in `project_equations()`: the calls `least_squares->min_x(…)`")
+    L.append("    (`count`); for a single call: is it a statement at brace depth 0 of the body (`depth0`: runs on every pass")
+    L.append("    that reaches the end), its arguments, does it stand after the last write of `min_x_`/`min_n_` (`afterBuild`:")
+    L.append("    the list just built, not the previous run's), after the solver's `reset(…)`, before `tst_rov_opr_ = true`,")
+    L.append("    and is every `return` before it the recursive restart `project_equations(); return;` -/")
+    L.append("structure HandOver where")
+    L.append("  count : Nat")
+    L.append("  depth0 : Bool")
+    L.append("  args : List String")
+    L.append("  afterBuild : Bool")
+    L.append("  afterReset : Bool")
+    L.append("  beforeFlag : Bool")
+    L.append("  returnsRestart : Bool")
+    L.append("deriving Repr, DecidableEq")
+    L.append("")
+    L.append("def handOver : HandOver :=")
+    L.append(f'  ⟨{h["count"]}, {b(h["depth0"])}, [{", ".join(chr(34) + a + chr(34) for a in h["args"])}], {b(h["after_build"])}, '
+             f'{b(h["after_reset"])}, {b(h["before_flag"])}, {b(h["returns_restart"])}⟩')
+    L.append("")
+    sa = d["set_algorithm"]
+    L.append("/-- `set_algorithm(name)`: `freshObject` — `least_squares = <local>` is a statement at depth 0, the only assignment")
+    L.append("    to `least_squares`, every value of <local> is `new T` without arguments and there is no `return`;")
+    L.append("    `listCalls` — `min_x(` calls in the body (the new object is told a list); `readsOld` — the old object is")
+    L.append("    dereferenced; `update` — the lowest level of the `update(L)` calls, `updateDepth0` — all of them at depth 0 -/")
+    L.append("structure SetAlg where")
+    L.append("  /-- (name, solver class created for it) in source order; the class created for any other name; `algorithm_ = alg` -/")
+    L.append("  classes : List (String × String)")
+    L.append("  dflt : String × String")
+    L.append("  storesName : Bool")
+    L.append("  freshObject : Bool")
+    L.append("  listCalls : Nat")
+    L.append("  readsOld : Bool")
+    L.append("  update : Option Nat")
+    L.append("  updateDepth0 : Bool")
+    L.append("deriving Repr, DecidableEq")
+    L.append("")
+    L.append(f'def setAlg : SetAlg := ⟨[{", ".join("(" + chr(34) + n_ + chr(34) + ", " + chr(34) + c_ + chr(34) + ")" for n_, c_ in sa["classes"])}], '
+             f'({chr(34)}{sa["default"][0]}{chr(34)}, {chr(34)}{sa["default"][1]}{chr(34)}), {b(sa["stores_name"])}, {b(sa["fresh_object"])}, {sa["list_calls"]}, {b(sa["reads_old"])}, '
+             f'{lean_opt(sa["update"])}, {b(sa["update_depth0"])}⟩')
+    L.append("")
+    L.append("/-- `GNU_gama::MoveToFront<N,Index,Index> indbuf` of `AdjEnvelope` (lib/gnu_gama/adj/adj_envelope.h) -/")
+    L.append(f'def mtfCapacity : Nat := {d["mtf"]}')
     L.append("")
     L.append("end Gama.C04.Net.Gen")
     return "\n".join(L) + "\n"
